@@ -149,6 +149,10 @@ func c19ReaderTotal(B int) {
 	add(vAnd(is(FrameContinuation), vAnd(last != 0, sid != last)), ErrCodeProtocol, false)
 	add(vAnd(vNot(is(FrameContinuation)), last != 0), ErrCodeProtocol, false)
 
+	// a frame too short for its mandatory fields: FRAME_SIZE_ERROR (RFC 7540 section 4.2), for the
+	// stream or for the connection
+	add(short, ErrCodeFrameSize, true)
+
 	anyDefect := false
 	for _, r := range rules {
 		anyDefect = vOr(anyDefect, r.cond)
@@ -157,7 +161,7 @@ func c19ReaderTotal(B int) {
 	if err == nil {
 		vReach("frame-returned")
 		vAssert(f != nil, "frame-or-error")
-		vAssert(vNot(vOr(anyDefect, short)), "malformed-frame-rejected")
+		vAssert(vNot(anyDefect), "malformed-frame-rejected")
 		if f != nil {
 			h := f.Header()
 			vAssert(vAnd(vAnd(h.Type == typ, h.Flags == flags), vAnd(h.StreamID == sid, h.Length == length)), "header-fields-preserved")
@@ -178,11 +182,8 @@ func c19ReaderTotal(B int) {
 	if !isCE && !isSE {
 		// neither a stream nor a connection error
 		if err == io.ErrUnexpectedEOF {
-			vReach("short-mandatory-field")
-			// RFC 7540 section 4.2 assigns FRAME_SIZE_ERROR to a frame too small for its mandatory
-			// fields; the reader answers with a bare io.ErrUnexpectedEOF (known finding K2). It must
-			// at least be exactly that class of input, or carry another diagnosed defect.
-			vAssert(vOr(short, anyDefect), "legal-frame-accepted")
+			// what the reader answered before fix 9049507 (then known finding K2): a bare
+			// io.ErrUnexpectedEOF for a frame that arrived completely
 			switch typ {
 			case FrameData:
 				vFail("k2-short-frame-data")
@@ -198,8 +199,11 @@ func c19ReaderTotal(B int) {
 		vFail("error-is-stream-or-connection-error")
 		return
 	}
-	vAssert(vOr(anyDefect, short), "legal-frame-accepted")
-	vAssert(vOr(match, short), "rfc-error-code")
+	if short {
+		vReach("short-mandatory-field")
+	}
+	vAssert(anyDefect, "legal-frame-accepted")
+	vAssert(match, "rfc-error-code")
 }
 
 // Read limit and truncation: a declared length above the limit is refused before anything is
